@@ -92,10 +92,11 @@ Definition run_rcase (op : N) : reader (list N) :=
       c <- rd_cfg ;;
       ret (en_bool (admissible c) ++
            flat_map (fun n => [N.of_nat n; if never_ends c n then 1%N else 0%N]) (all_ids c))
-  | 104%N => (* closed-form schedule of a plain tree: plain?, solver's own check, S table, E table *)
+  | 104%N => (* closed-form schedule: wf, plain, solver's own check, plainT, slack, S table, E table *)
       c <- rd_cfg ;;
       let '(lS, lE) := solve c in
-      ret (en_bool (wf c) ++ en_bool (plain c) ++ en_bool (is_scheduleb c lS lE) ++ lS ++ lE)
+      ret (en_bool (wf c) ++ en_bool (plain c) ++ en_bool (is_scheduleb c lS lE)
+           ++ en_bool (plainT c) ++ en_bool (slackb c lS lE) ++ lS ++ lE)
   | 105%N => (* is c' the flattened graph of c under the renaming table f *)
       c <- rd_cfg ;; c' <- rd_cfg ;; f <- rd_nats ;;
       ret (en_bool (wf c) ++ en_bool (wf c') ++ en_bool (flat_ofb c c' f))
